@@ -205,7 +205,16 @@ def network_simplex(
             node = parent[node]
 
         if _verif.ENABLED:  # pragma: no cover
-            _verif.emit("ns_pivot", entering=entering, leaving=leaving, from_upper=rc >= 0, delta=delta, first=first, second=second, join=join)
+            _verif.emit(
+                "ns_pivot",
+                entering=entering,
+                leaving=leaving,
+                from_upper=rc >= 0,
+                delta=delta,
+                first=first,
+                second=second,
+                join=join,
+            )
 
         # Degenerate pivot: flip state without changing flow
         if delta == 0 and leaving == entering:
